@@ -29,6 +29,7 @@ type Node struct {
 	DetFn    *ssa.Function // body that runs: the function itself, or the closure a constructor returned
 	DetCtor  *ssa.Call     // for detector variables: the constructing call in magic's init (prefix/offset/...)
 	DetBind  []ssa.Value   // for detector variables: closure bindings
+	DetChain []*ssa.Call   // detector variables built by constructors calling constructors: the calls from init inwards
 	Children []*Node
 	ChildPos []token.Pos
 	Parents  []*Node // every node listing this one as a child (well-formed: exactly one, root/sentinel none)
@@ -341,6 +342,9 @@ func (m *Model) resolveDetectors(c *core.Ctx) {
 				continue
 			}
 			n.DetFn, n.DetCtor, n.DetBind = ClosureOfGlobal(sp, g)
+			if _, chain, _ := ClosureChain(sp, g); len(chain) > 1 {
+				n.DetChain = chain
+			}
 		case nil:
 			if fl, ok := ast.Unparen(n.DetExpr).(*ast.FuncLit); ok {
 				n.DetFn = lits[fl.Pos()]
@@ -388,30 +392,11 @@ func ClosureOfGlobal(sp *ssa.Package, g *ssa.Global) (*ssa.Function, *ssa.Call, 
 	case *ssa.MakeClosure:
 		return x.Fn.(*ssa.Function), nil, x.Bindings
 	case *ssa.Call:
-		callee := x.Call.StaticCallee()
-		if callee == nil || callee.Blocks == nil {
+		fn, chain, bind := closureThrough(x, 0)
+		if fn == nil {
 			return nil, nil, nil
 		}
-		var clo *ssa.MakeClosure
-		for _, b := range callee.Blocks {
-			r, ok := b.Instrs[len(b.Instrs)-1].(*ssa.Return)
-			if !ok {
-				continue
-			}
-			rv := r.Results[0]
-			if ct, ok := rv.(*ssa.ChangeType); ok {
-				rv = ct.X
-			}
-			mc, ok := rv.(*ssa.MakeClosure)
-			if !ok || (clo != nil && clo != mc) {
-				return nil, nil, nil
-			}
-			clo = mc
-		}
-		if clo == nil {
-			return nil, nil, nil
-		}
-		return clo.Fn.(*ssa.Function), x, clo.Bindings
+		return fn, chain[0], bind
 	}
 	return nil, nil, nil
 }
@@ -490,6 +475,70 @@ func GlobalInit(g *ssa.Global) ssa.Value {
 		return nil
 	}
 	return stores[0].Val
+}
+
+// ClosureChain is ClosureOfGlobal for constructors that call constructors: it
+// returns the closure body, the chain of constructing calls from the package
+// initialiser inwards, and the bindings of the closure in the innermost one.
+func ClosureChain(sp *ssa.Package, g *ssa.Global) (*ssa.Function, []*ssa.Call, []ssa.Value) {
+	init := GlobalInit(g)
+	if init == nil {
+		return nil, nil, nil
+	}
+	if ct, ok := init.(*ssa.ChangeType); ok {
+		init = ct.X
+	}
+	call, ok := init.(*ssa.Call)
+	if !ok {
+		return nil, nil, nil
+	}
+	return closureThrough(call, 0)
+}
+
+// closureThrough: call's callee returns one closure on every path, directly or
+// as the result of another such constructor.
+func closureThrough(call *ssa.Call, depth int) (*ssa.Function, []*ssa.Call, []ssa.Value) {
+	callee := call.Call.StaticCallee()
+	if callee == nil || callee.Blocks == nil || depth > 3 {
+		return nil, nil, nil
+	}
+	var clo *ssa.MakeClosure
+	var inner *ssa.Call
+	for _, b := range callee.Blocks {
+		r, ok := b.Instrs[len(b.Instrs)-1].(*ssa.Return)
+		if !ok {
+			continue
+		}
+		rv := r.Results[0]
+		if ct, ok := rv.(*ssa.ChangeType); ok {
+			rv = ct.X
+		}
+		switch y := rv.(type) {
+		case *ssa.MakeClosure:
+			if inner != nil || (clo != nil && clo != y) {
+				return nil, nil, nil
+			}
+			clo = y
+		case *ssa.Call:
+			if clo != nil || (inner != nil && inner != y) {
+				return nil, nil, nil
+			}
+			inner = y
+		default:
+			return nil, nil, nil
+		}
+	}
+	if clo != nil {
+		return clo.Fn.(*ssa.Function), []*ssa.Call{call}, clo.Bindings
+	}
+	if inner != nil {
+		fn, chain, bind := closureThrough(inner, depth+1)
+		if fn == nil {
+			return nil, nil, nil
+		}
+		return fn, append([]*ssa.Call{call}, chain...), bind
+	}
+	return nil, nil, nil
 }
 
 // ConstBytes constant-folds an SSA value that denotes a []byte built from a
